@@ -190,6 +190,9 @@ Fixpoint run_fuel (fuel : nat) (op : string) (args : list val) : val :=
       match args with
       | [VB p] => VC "c17" [ob_is_valid E typed p; ob_comp_valid E typed p; ob_join_checked E [] p]
       | _ => VBad end
+    else if tag_is name "cons" then
+      (* self-consistency of iterators, cross-type comparisons and components: no inconsistency; plus parity data *)
+      match args with [VB a; VB b] => VC "cons" [VL []; ob_cons_parity E a b] | _ => VBad end
     else VBad
   end.
 Definition run := run_fuel 1.
